@@ -127,6 +127,7 @@ def check_case(case, res: Result):
         max_active: dict[str, int] = {}
         ended_blocks: set[int] = set()
         registered: dict[int, bool] = {}
+        lock_ok: dict[int, bool] = {}
 
         # ---- single pass over the trace with incrementally maintained node state
         last_started_idx: dict[int, int] = {}
@@ -145,6 +146,8 @@ def check_case(case, res: Result):
                     V("C02.second_visit_of_started_node", f"node {nid} {cls} visited again while started (tick {tick})", n)
             elif field == "interrupt_registered":
                 registered[pid] = bool(new)
+            elif field == "lock_acquired":
+                lock_ok[pid] = bool(new)
             elif field == "block_ended" and new is True:
                 ended_blocks.add(pid)
             elif field == "block_ended" and new is False:
@@ -183,6 +186,8 @@ def check_case(case, res: Result):
                     if isinstance(n, p.CallMacroNode):
                         active_calls[n.macro_name] = active_calls.get(n.macro_name, 0) - 1
                 s_n["started"] = False
+                if isinstance(n, p.BlockNode):
+                    lock_ok[pid] = False      # a reset Block must take the lock again before its body may run
                 if isinstance(n, p.NodeWithChildren):
                     last_started_idx[pid] = -1
             elif field == "child_index" and new == 0:
@@ -209,6 +214,12 @@ def check_case(case, res: Result):
                           f"macro {par.macro_name} in progress", n)
                 elif not state(id(par))["started"]:
                     V("C02.child_before_parent", f"{nid} {cls} started at tick {tick} before its parent {par.id}", n)
+                elif isinstance(par, p.BlockNode) and not isinstance(n, p.WhitespaceNode):
+                    # a Block has started only once it holds the block lock (observed as an event since its last reset)
+                    res.count("block_body_starts")
+                    if not lock_ok.get(id(par), False):
+                        V("C02.block_body_line_before_block_lock", f"{nid} {cls} started at tick {tick} although its "
+                          f"Block {par.id} did not acquire the block lock since it was (re)set", n)
                 idx = list(par.children).index(n)
                 prev = last_started_idx.get(id(par), -1)
                 res.count("order_checks")
